@@ -151,8 +151,21 @@ def celsius_case(draw: Any) -> dict[str, Any]:
 
 
 @st.composite
+def floatexp_case(draw: Any) -> dict[str, Any]:
+    """A dimensional unit raised to a non-integral FLOAT exponent (binary-exact, so the model stays exact), converted to
+    an inequivalent target (the unit to the truncated / rounded integer power, or a plain number): must be refused."""
+    unit = draw(st.sampled_from(["meter", "second", "kilogram", "kilometer", "newton", "kelvin", "ampere", "joule"]))
+    exp = draw(st.sampled_from(["1/2", "3/2", "-1/2", "5/2", "-3/2", "1/4"]))
+    num = draw(st.integers(2, 60))
+    tgt = draw(st.sampled_from(["trunc", "round-away", "number", "same-unit"]))
+    return {"kind": "floatexp", "unit": unit, "exp": exp, "num": num, "target": tgt}
+
+
+@st.composite
 def case_strategy(draw: Any) -> dict[str, Any]:
-    kind = draw(st.sampled_from(["conv"] * 12 + ["eval"] * 5 + ["celsius"] * 3))
+    kind = draw(st.sampled_from(["conv"] * 12 + ["eval"] * 5 + ["celsius"] * 3 + ["floatexp"] * 2))
+    if kind == "floatexp":
+        return draw(floatexp_case())
     if kind == "conv":
         return draw(conv_case())
     if kind == "eval":
@@ -625,8 +638,43 @@ def judge_celsius(case: dict[str, Any]) -> tuple[list[tuple[str, str]], list[str
 # dispatcher / driver
 
 
+def judge_floatexp(case: dict[str, Any]) -> tuple[list[tuple[str, str]], list[str]]:
+    import sympy
+    from symplyphysics import Quantity, convert_to
+    out: list[tuple[str, str]] = []
+    e = sympy.Rational(case["exp"])
+    u = MU.lib_unit(case["unit"])
+    q_expr = case["num"] * u**sympy.Float(float(e))
+    desc = f"Quantity({case['num']}*{case['unit']}**{float(e)})"
+    tk = case["target"]
+    trunc = int(e) if e > 0 else -int(-e)
+    away = trunc + (1 if e > 0 else -1)
+    target = {"trunc": u**trunc if trunc else sympy.S.One, "round-away": u**away, "number": sympy.S.One, "same-unit": u}[tk]
+    texp = {"trunc": trunc, "round-away": away, "number": 0, "same-unit": 1}[tk]
+    if (MU.dim(case["unit"])**e).same(MU.dim(case["unit"])**texp):
+        return out, ["floatexp:degenerate"]
+    labels = ["floatexp:" + tk]
+    try:
+        q = Quantity(q_expr)
+    except Exception as exc:  # pylint: disable=broad-except
+        return out, labels + ["floatexp:construction-refused:" + type(exc).__name__]
+    try:
+        n = convert_to(q, target)
+        out.append(("convert_to:not-refused:float-exponent", f"convert_to({desc}, {target}) returned {n} although the dimensions are "
+            f"inequivalent ({case['unit']}**{e} vs {target})"))
+    except Exception as exc:  # pylint: disable=broad-except
+        if _refusal(exc):
+            labels.append("refused:" + type(exc).__name__)
+        else:
+            out.append(("convert_to:wrong-exception:" + type(exc).__name__, f"convert_to({desc}, {target}) raised {_exc(exc)}"))
+    return out, labels
+
+
 def judge(case: dict[str, Any], excluded: frozenset[str] = frozenset()) -> tuple[list[tuple[str, str]], list[str], bool]:
     kind = case["kind"]
+    if kind == "floatexp":
+        res, labels = judge_floatexp(case)
+        return res, labels, True
     if kind == "conv":
         res, labels = judge_conv(case, excluded)
         return res, labels, conv_nontrivial(case)
